@@ -1061,6 +1061,11 @@ class RecipWorld(CtorWorld):
             return BoundMethod(obj, attr)
         return super().load_attr(ip, obj, attr, node)
 
+    def truth_of(self, ip, v):
+        if isinstance(v, IntervalSetV):
+            return bool(ip.cmp_int(v.hi, v.lo, ">", None))         # a set / list of consecutive instants is true iff it is not empty
+        return super().truth_of(ip, v)
+
     def call_method(self, ip, obj, name, args, kwargs, node):
         if isinstance(obj, IntervalSetV) and name == "intersection" and len(args) == 1 and isinstance(args[0], (IntervalSetV, RangeV)) and not kwargs:
             return self.binop(ip, IntervalSetV(obj.lo, obj.hi), ast.BitAnd(), args[0], node)
